@@ -4,7 +4,7 @@ CONSTANTS
   Reqs = {"r1"}
   Gets = {"g1"}
   Cfgs <- CfgPlainSse
-  MaxEmit = 1
+  MaxEmit = 0
   MaxSreq = 0
   MaxSa = 0
   MaxBc = 1
